@@ -87,4 +87,23 @@ RepliedOnlyWhenDone == replied => mgr = "done"
 (* when shutdown() returns no clone of the user's service is left and the mailbox is closed *)
 ServiceReleased == replied => (svc = {} /\ mbox = "closed")
 Invariants == NoPanic /\ Released /\ RepliedOnlyWhenDone /\ ServiceReleased
+-----------------------------------------------------------------------------
+(* Liveness (C08 "always completes ... neither panics nor hangs").  Every   *)
+(* step of the manager and of the handlers is weakly fair; whether and when *)
+(* shutdown is requested and the runtime is torn down is up to the          *)
+(* environment.  Once shutdown was requested it is answered unless the      *)
+(* runtime goes away first, and once the runtime is gone every task comes   *)
+(* to rest (nothing is left waiting for something that cannot happen).      *)
+Fairness ==
+  /\ WF_vars(AbortPending) /\ WF_vars(Joined) /\ WF_vars(Cleanup) /\ WF_vars(Drained)
+  /\ WF_vars(DropState) /\ WF_vars(Reply) /\ WF_vars(MgrCancelled) /\ WF_vars(JoinedDuringTeardown)
+  /\ \A h \in Handlers : WF_vars(HandlerExit(h)) /\ WF_vars(HandlerCancelled(h))
+FairSpec == Spec /\ Fairness
+
+ShutdownCompletes == (mgr # "running") ~> (replied \/ rt = "down")
+AtRest == /\ mgr \in {"done", "cancelled", "dropped"}
+          /\ \A h \in Handlers : hs[h] # "alive"
+          /\ svc \subseteq {Mgr}
+TeardownComesToRest == (rt = "down") ~> []AtRest
+ShutdownComesToRest == (mgr # "running") ~> [](AtRest /\ (rt = "up" => act = {} /\ svc = {}))
 =============================================================================
